@@ -264,7 +264,9 @@ def check(case) -> Case:
         uniform = set()  # functions whose observed depth is the documented one up to the uniform python offset
         for f in funcs:
             ex = explain_func(f, lang, obs, headers, limits)
-            if ex is None or (ex[0] == "known" and ex[1] == ["py-base-0"]):
+            # (a python function with `match` is left out: the known match/case deviation changes which
+            # statement is the deepest one, so "wrap the deepest statement" is not well-defined for the tool)
+            if (ex is None or (ex[0] == "known" and ex[1] == ["py-base-0"])) and not (lang == "py" and "match" in sk.kinds_in(f["body"])):
                 uniform.add(f["name"])
             if ex is None:
                 continue
